@@ -52,7 +52,9 @@ package receiver
 //      from the connection after the token stream; otherwise an error.
 // C04: the pending file created here is cleaned up on every return path.
 //@ func (*receiver.Transfer).receiveData
-//@   at[C03] (*github.com/google/renameio/v2.PendingFile).CloseAtomicallyReplace: assert [checksum-gate] bid(localSum) == md4Of(seededAcc(select(ghost.acc, out), rt.Seed)) && bid(localSum) == bid(remoteSum) && isWire(bid(remoteSum), data(rt.Conn.Reader))
+//@   at[C03] (*github.com/google/renameio/v2.PendingFile).CloseAtomicallyReplace: assert [local-sum-is-md4-of-seed-and-written-bytes] bid(localSum) == md4Of(seededAcc(select(ghost.acc, out), rt.Seed))
+//@   at[C03] (*github.com/google/renameio/v2.PendingFile).CloseAtomicallyReplace: assert [sums-compared-equal] bid(localSum) == bid(remoteSum)
+//@   at[C03] (*github.com/google/renameio/v2.PendingFile).CloseAtomicallyReplace: assert [remote-sum-read-from-connection] isWire(bid(remoteSum), data(rt.Conn.Reader))
 //@   loop[C03] 0: invariant [hash-tracks-file] select(ghost.acc, data(h)) == seededAcc(select(ghost.acc, out), rt.Seed)
 //@   ensures[C03] [rename-or-error] err == nil ==> ghost.renames == old(ghost.renames) + 1
 //@   ensures[C04] [cleanup] ghost.created == old(ghost.created) + 1 ==> select(ghost.cleaned, ghost.lastPending)
